@@ -601,7 +601,10 @@ impl Disk {
                 self.write_block(&swapped,master_ptr as usize,0)?;
                 self.deallocate_block(master_ptr as usize)?;
             }
-            _ => panic!("cannot read file of this type")
+            _ => {
+                error!("cannot read file of this storage type");
+                return Err(Box::new(Error::FileTypeMismatch));
+            }
         }
         Ok(())
     }
@@ -638,7 +641,10 @@ impl Disk {
                 }
                 return Ok(fimg);
             }
-            _ => panic!("cannot read file of this type")
+            _ => {
+                error!("cannot read file of this storage type");
+                return Err(Box::new(Error::FileTypeMismatch));
+            }
         }
     }
     /// Verify that the new name does not already exist
